@@ -11,6 +11,8 @@ mkdir -p $base
 if [ ! -d $base/repo ]; then git -C /repo worktree add -q --detach $base/repo HEAD; fi
 git -C $base/repo checkout -q --detach $(git -C /repo rev-parse HEAD)
 git -C $base/repo checkout -q -- .
+git -C $base/repo clean -fdq -- embedded-cli/src embedded-cli-macros/src embedded-cli/tests
+git -C $base/repo clean -fdq -- embedded-cli/src embedded-cli-macros/src embedded-cli/tests
 rsync -a --delete --exclude target --exclude .git --exclude replays --exclude evidence /verif/ $base/verif/
 mkdir -p $base/verif/evidence
 sed -i "s#/repo/#$base/repo/#g" $base/verif/mc/mcx/Cargo.toml $base/verif/mc/mcx-progs/Cargo.toml $base/verif/mc/gen/gen.py
@@ -27,3 +29,4 @@ for c in "$@"; do
   echo "[$tag $c] exit $(cat $base/last.rc)"
 done
 git -C $base/repo checkout -q -- .
+git -C $base/repo clean -fdq -- embedded-cli/src embedded-cli-macros/src embedded-cli/tests
